@@ -276,6 +276,10 @@ func RunForward(t *testing.T, scn int, seed int64, n int, rec *Recorder, dir str
 		one := func(i int, rng *rand.Rand, big bool) {
 			rmu.Lock()
 			s := svcs[rng.Intn(len(svcs))]
+			upload := i >= 2000000 // overlapping uploads into the service that buffers request bodies
+			if upload {
+				s = svcs[len(svcs)-1]
+			}
 			id := fmt.Sprintf("q%d", i)
 			var segs []string
 			literal := true
@@ -349,8 +353,17 @@ func RunForward(t *testing.T, scn int, seed int64, n int, rec *Recorder, dir str
 				rq.body = patternBody([]int{0, 1, 300, 9000, 40000}[rng.Intn(5)], byte(i))
 				rq.chunked = rng.Intn(2) == 0 && len(rq.body) > 0
 			}
+			if upload {
+				rq.method, rq.chunked = "POST", false
+				rq.body = patternBody(200+rng.Intn(9000), byte(i))
+			}
 			rmu.Unlock()
-			resp := w.rawDo(rq)
+			var resp rawResp
+			if upload {
+				resp, _ = w.rawDoSplit(rq, true) // the body arrives in two parts, a little apart: the uploads overlap while being buffered
+			} else {
+				resp = w.rawDo(rq)
+			}
 			seen := w.echo.get(id)
 			if seen == nil || resp.err != "" {
 				w.rec.Emit("harness_error", KV{"what": fmt.Sprintf("forward probe %s got no echo (status %d err %q path %q)", id, resp.status, resp.err, path)})
@@ -438,6 +451,20 @@ func RunForward(t *testing.T, scn int, seed int64, n int, rec *Recorder, dir str
 			}(g)
 		}
 		wg.Wait()
+		// overlapping buffered uploads, each with a body of its own (after the sequential ones have warmed everything up)
+		for round := 0; round < 3; round++ {
+			for g := 0; g < 6; g++ {
+				wg.Add(1)
+				grng := rand.New(rand.NewSource(seed*1000 + int64(round*10+g)))
+				go func(g int) {
+					defer wg.Done()
+					for k := 0; k < 4; k++ {
+						one(2000000+round*1000+g*10+k, grng, false)
+					}
+				}(g)
+			}
+			wg.Wait()
+		}
 		time.Sleep(2 * time.Second)
 		synctest.Wait()
 		w.rec.Emit("end", nil)
@@ -627,7 +654,11 @@ func (w *World) rawDoSplit(rq rawReq, split bool) (rawResp, int) {
 	}
 	defer conn.Close()
 	var b bytes.Buffer
-	fmt.Fprintf(&b, "%s %s HTTP/1.1\r\nHost: %s\r\n", rq.method, rq.path, rq.host)
+	target := rq.path
+	if rq.query != "" {
+		target += "?" + rq.query
+	}
+	fmt.Fprintf(&b, "%s %s HTTP/1.1\r\nHost: %s\r\n", rq.method, target, rq.host)
 	for _, kv := range rq.headers {
 		fmt.Fprintf(&b, "%s: %s\r\n", kv[0], kv[1])
 	}
